@@ -2,6 +2,8 @@ import SppModel.Generated.DmLaw
 import SppModel.Model.Dedisp
 import Mathlib.Tactic.Ring
 import Mathlib.Tactic.FieldSimp
+import Mathlib.Tactic.NormNum
+import Mathlib.Algebra.Order.Field.Rat
 /-!
 # Source tie — the dispersion law of `params.compute_dmdelays` (C09)
 
@@ -13,7 +15,7 @@ the C09 theorems (`delay_zero_at_ref`, `delay_antisymm`, `delay_mono_freq`, `del
 namespace SppModel.Tie
 open SppModel SppModel.Generated.DmLaw
 
-theorem dm_law_translated : ∀ f ∈ translationFailures, f.1 ∉ ["dm_law", "dm_ref_names"] := by decide
+theorem dm_law_translated : ∀ f ∈ translationFailures, f.1 ∉ ["dm_law", "dm_ref_names", "dm_ref_extremes"] := by decide
 
 /-- the constant of the source is the model's `4.148808e3` -/
 theorem dm_constant_eq : DM_CONSTANT_LK = Dedisp.KDM := by
@@ -30,5 +32,137 @@ theorem delaySamples_is_model (dm f fref tsamp : ℚ) :
 
 /-- exactly the four named references of the property are accepted (anything else by name raises) -/
 theorem ref_names : refFreqNames = ["center", "ch1", "max", "min"] := by decide
+
+/-! ### the named references `max` / `min` are channel centres
+
+`Header.fmax` / `fmin` are `chan_freqs.max()` / `.min()`: for every band direction the reference named `max`
+(`min`) is the centre of an existing channel - channel 0 or the last one - and bounds every channel centre, so the
+delay at that channel is exactly zero (`Dedisp.delay_zero_at_ref`) and no channel lies beyond the reference. -/
+
+private theorem foldl_max_ge (xs : List ℚ) (a : ℚ) :
+    a ≤ xs.foldl max a ∧ ∀ x ∈ xs, x ≤ xs.foldl max a := by
+  induction xs generalizing a with
+  | nil => exact ⟨le_refl _, fun x hx => absurd hx (List.not_mem_nil)⟩
+  | cons y ys ih =>
+    rw [List.foldl_cons]
+    obtain ⟨h1, h2⟩ := ih (max a y)
+    refine ⟨le_trans (le_max_left a y) h1, fun x hx => ?_⟩
+    rcases List.mem_cons.mp hx with rfl | hx
+    · exact le_trans (le_max_right a x) h1
+    · exact h2 x hx
+
+private theorem foldl_max_le (xs : List ℚ) (a b : ℚ) (ha : a ≤ b) (hxs : ∀ x ∈ xs, x ≤ b) :
+    xs.foldl max a ≤ b := by
+  induction xs generalizing a with
+  | nil => exact ha
+  | cons y ys ih =>
+    rw [List.foldl_cons]
+    exact ih (max a y) (max_le ha (hxs y List.mem_cons_self))
+      (fun x hx => hxs x (List.mem_cons_of_mem _ hx))
+
+private theorem foldl_min_le (xs : List ℚ) (a : ℚ) :
+    xs.foldl min a ≤ a ∧ ∀ x ∈ xs, xs.foldl min a ≤ x := by
+  induction xs generalizing a with
+  | nil => exact ⟨le_refl _, fun x hx => absurd hx (List.not_mem_nil)⟩
+  | cons y ys ih =>
+    rw [List.foldl_cons]
+    obtain ⟨h1, h2⟩ := ih (min a y)
+    refine ⟨le_trans h1 (min_le_left a y), fun x hx => ?_⟩
+    rcases List.mem_cons.mp hx with rfl | hx
+    · exact le_trans h1 (min_le_right a x)
+    · exact h2 x hx
+
+private theorem foldl_min_ge (xs : List ℚ) (a b : ℚ) (ha : b ≤ a) (hxs : ∀ x ∈ xs, b ≤ x) :
+    b ≤ xs.foldl min a := by
+  induction xs generalizing a with
+  | nil => exact ha
+  | cons y ys ih =>
+    rw [List.foldl_cons]
+    exact ih (min a y) (le_min ha (hxs y List.mem_cons_self))
+      (fun x hx => hxs x (List.mem_cons_of_mem _ hx))
+
+private theorem chanFreq_mono_of_nonneg (fch1 foff : ℚ) (h : 0 ≤ foff) {i j : Nat} (hij : i ≤ j) :
+    chanFreq fch1 foff i ≤ chanFreq fch1 foff j := by
+  unfold chanFreq
+  have : (i : ℚ) ≤ (j : ℚ) := by exact_mod_cast hij
+  exact add_le_add_left (mul_le_mul_of_nonneg_right this h) _
+
+private theorem chanFreq_anti_of_nonpos (fch1 foff : ℚ) (h : foff ≤ 0) {i j : Nat} (hij : i ≤ j) :
+    chanFreq fch1 foff j ≤ chanFreq fch1 foff i := by
+  unfold chanFreq
+  have : (i : ℚ) ≤ (j : ℚ) := by exact_mod_cast hij
+  exact add_le_add_left (mul_le_mul_of_nonpos_right this h) _
+
+private theorem mem_chans {fch1 foff : ℚ} {n : Nat} {x : ℚ}
+    (hx : x ∈ (List.range n).map (chanFreq fch1 foff)) : ∃ i, i < n ∧ chanFreq fch1 foff i = x := by
+  obtain ⟨i, hi, rfl⟩ := List.mem_map.mp hx
+  exact ⟨i, List.mem_range.mp hi, rfl⟩
+
+private theorem chan_mem (fch1 foff : ℚ) {n i : Nat} (hi : i < n) :
+    chanFreq fch1 foff i ∈ (List.range n).map (chanFreq fch1 foff) :=
+  List.mem_map.mpr ⟨i, List.mem_range.mpr hi, rfl⟩
+
+theorem fmax_spec (fch1 foff : ℚ) (n : Nat) (hn : 0 < n) :
+    fmaxOf fch1 foff n = if foff ≤ 0 then chanFreq fch1 foff 0 else chanFreq fch1 foff (n - 1) := by
+  unfold fmaxOf
+  split
+  · next h =>
+    apply le_antisymm
+    · apply foldl_max_le _ _ _ (le_refl _)
+      intro x hx
+      obtain ⟨i, _, rfl⟩ := mem_chans hx
+      exact chanFreq_anti_of_nonpos fch1 foff h (Nat.zero_le i)
+    · exact (foldl_max_ge _ _).1
+  · next h =>
+    have h' : 0 ≤ foff := le_of_lt (not_le.mp h)
+    apply le_antisymm
+    · apply foldl_max_le _ _ _ (chanFreq_mono_of_nonneg fch1 foff h' (Nat.zero_le _))
+      intro x hx
+      obtain ⟨i, hi, rfl⟩ := mem_chans hx
+      exact chanFreq_mono_of_nonneg fch1 foff h' (Nat.le_sub_one_of_lt hi)
+    · exact (foldl_max_ge _ _).2 _ (chan_mem fch1 foff (Nat.sub_lt hn Nat.one_pos))
+
+theorem fmin_spec (fch1 foff : ℚ) (n : Nat) (hn : 0 < n) :
+    fminOf fch1 foff n = if foff ≤ 0 then chanFreq fch1 foff (n - 1) else chanFreq fch1 foff 0 := by
+  unfold fminOf
+  split
+  · next h =>
+    apply le_antisymm
+    · exact (foldl_min_le _ _).2 _ (chan_mem fch1 foff (Nat.sub_lt hn Nat.one_pos))
+    · apply foldl_min_ge _ _ _ (chanFreq_anti_of_nonpos fch1 foff h (Nat.zero_le _))
+      intro x hx
+      obtain ⟨i, hi, rfl⟩ := mem_chans hx
+      exact chanFreq_anti_of_nonpos fch1 foff h (Nat.le_sub_one_of_lt hi)
+  · next h =>
+    have h' : 0 ≤ foff := le_of_lt (not_le.mp h)
+    apply le_antisymm
+    · exact (foldl_min_le _ _).1
+    · apply foldl_min_ge _ _ _ (le_refl _)
+      intro x hx
+      obtain ⟨i, _, rfl⟩ := mem_chans hx
+      exact chanFreq_mono_of_nonneg fch1 foff h' (Nat.zero_le i)
+
+/-- every channel centre lies between the two named references -/
+theorem chan_between (fch1 foff : ℚ) (n i : Nat) (hi : i < n) :
+    fminOf fch1 foff n ≤ chanFreq fch1 foff i ∧ chanFreq fch1 foff i ≤ fmaxOf fch1 foff n :=
+  ⟨(foldl_min_le _ _).2 _ (chan_mem fch1 foff hi), (foldl_max_ge _ _).2 _ (chan_mem fch1 foff hi)⟩
+
+private theorem roundHalfEven_zero' : Meta.roundHalfEven 0 = 0 := by
+  have h0 : Rat.floor 0 = 0 := by decide
+  unfold Meta.roundHalfEven
+  simp only [h0]
+  norm_num
+
+private theorem delaySamples_self (dm f tsamp : ℚ) : delaySamples dm f f tsamp = 0 := by
+  unfold delaySamples delaySeconds
+  rw [sub_self, mul_zero, zero_div, roundHalfEven_zero']
+
+/-- the delay of the reference channel itself is zero, for the translated law and the translated references -/
+theorem delay_zero_at_named_max (dm fch1 foff tsamp : ℚ) (n : Nat) (hn : 0 < n) :
+    ∃ i, i < n ∧ delaySamples dm (chanFreq fch1 foff i) (fmaxOf fch1 foff n) tsamp = 0 := by
+  rw [fmax_spec fch1 foff n hn]
+  split
+  · exact ⟨0, hn, delaySamples_self _ _ _⟩
+  · exact ⟨n - 1, Nat.sub_lt hn Nat.one_pos, delaySamples_self _ _ _⟩
 
 end SppModel.Tie
